@@ -13,7 +13,6 @@ structure DedStruct (S : Schema) (T : String → Bytes → Bytes) (g fa : String
   ctx : DedCtx S g fa r
   wf : WfStruct S name d
   wfd : wfdStruct S d = true
-  early : earlyFrom [] d.fields = true
   spec : ∀ x ∈ d.fields, FieldSpec S T r E x
   obj : objectOf d E = .ok vs
   fit : d.fields.all (fun f => fitField r d vs f && admMember fa vs f) = true
@@ -38,8 +37,14 @@ theorem DedStruct.wfdAt (h : DedStruct S T g fa r name d E vs) {f : Field} (hf :
   have := h.wfd
   unfold wfdStruct at this
   simp only [List.all_eq_true, Bool.and_eq_true] at this
-  have := this f hf
+  have := this.1 f hf
   exact ⟨this.1.1, this.1.2, this.2⟩
+
+theorem DedStruct.wfdUnions (h : DedStruct S T g fa r name d E vs) : wfdUnionsFrom S [] d.fields = true := by
+  have := h.wfd
+  unfold wfdStruct at this
+  simp only [Bool.and_eq_true] at this
+  exact this.2
 
 theorem DedStruct.fitAt (h : DedStruct S T g fa r name d E vs) {f : Field} (hf : f ∈ d.fields) :
     fitField r d vs f = true ∧ admMember fa vs f = true := by
